@@ -99,6 +99,74 @@ struct Totals {
 
 static void child_run(const Plan& p);
 
+// ---- pristine template process (DESIGN §2.2) -------------------------------------------------------------
+// Every run is a child of a template process whose state is a function of the executable and the build
+// directory only: it is forked before the worker parses its options, initialises itself the same way in every
+// invocation, and afterwards never touches the heap.  The heap layout, the stack contents and all static data a
+// run starts from are therefore identical in every worker and in a later fresh-process replay, so even the
+// manifestation of undefined behaviour (which neighbour an out-of-bounds access hits) replays.
+struct PlanBuf { uint32_t len; char text[(8 << 20) - 4]; };
+static PlanBuf* g_planbuf = nullptr;
+static int g_req_fd = -1, g_resp_fd = -1;   // worker side
+static pid_t g_template_pid = -1;
+
+static void template_main(int req_fd, int resp_fd, const char* bdir) {
+  std::string bd = bdir;
+  setenv("LOCPATH", (bd + "/../locale").c_str(), 1);
+  symbols_load((bd + "/exe.sym").c_str(), bd.c_str());
+  load_builtin_crystals((bd + "/Crystals.dat").c_str());
+  g_tab_hash0 = tables_hash();
+  g_tab_ranges0 = tables_range_hashes();
+  cache_main_stack();
+  // load every locale configuration once so that children find them in glibc's in-memory cache
+  for (int cfg = 2; cfg >= 0; cfg--) apply_locale(cfg);
+  signal(SIGPIPE, SIG_IGN);
+  for (;;) {
+    char c;
+    ssize_t r = read(req_fd, &c, 1);
+    if (r == 0) _exit(0);
+    if (r < 0) { if (errno == EINTR) continue; _exit(0); }
+    pid_t pid = fork();
+    int st = 0;
+    if (pid == 0) {
+      if (g_planbuf->len >= 4 && !memcmp(g_planbuf->text, "noop", 4)) _exit(0);   // diagnostic: cost of an empty run
+      close(req_fd);
+      close(resp_fd);
+      dup2(g_fd_out, 1);
+      dup2(g_fd_err, 2);
+      alarm(20);
+      Plan p;
+      std::string err;
+      if (!plan_from_text(std::string(g_planbuf->text, g_planbuf->len), p, &err)) { fprintf(stderr, "xrlsim: bad plan: %s\n", err.c_str()); _exit(3); }
+      child_run(p);
+      SH->done = 1;
+      _exit(0);
+    }
+    if (pid < 0) st = 3 << 8;
+    else while (waitpid(pid, &st, 0) < 0 && errno == EINTR) {}
+    if (write(resp_fd, &st, sizeof st) != (ssize_t)sizeof st) _exit(0);
+  }
+}
+
+static bool spawn_template(const char* bdir) {
+  int req[2], resp[2];
+  if (pipe(req) != 0 || pipe(resp) != 0) return false;
+  pid_t pid = fork();
+  if (pid < 0) return false;
+  if (pid == 0) {
+    close(req[1]);
+    close(resp[0]);
+    template_main(req[0], resp[1], bdir);
+    _exit(0);
+  }
+  close(req[0]);
+  close(resp[1]);
+  g_req_fd = req[1];
+  g_resp_fd = resp[0];
+  g_template_pid = pid;
+  return true;
+}
+
 static std::string read_fd_all(int fd) {
   std::string s;
   off_t n = lseek(fd, 0, SEEK_END);
@@ -176,18 +244,23 @@ static Outcome run_forked(const Plan& p, bool keep_log = false) {
   lseek(g_fd_out, 0, SEEK_SET);
   lseek(g_fd_err, 0, SEEK_SET);
   TT.forks++;
-  pid_t pid = fork();
-  if (pid < 0) { out.status = ST_INTERNAL; return out; }
-  if (pid == 0) {
-    dup2(g_fd_out, 1);
-    dup2(g_fd_err, 2);
-    alarm(20);
-    child_run(p);
-    SH->done = 1;
-    _exit(0);
+  {
+    std::string txt = getenv("XRLSIM_NOOP") ? std::string("noop") : plan_to_text(p);
+    if (txt.size() >= sizeof g_planbuf->text) { out.status = ST_INTERNAL; return out; }
+    memcpy(g_planbuf->text, txt.data(), txt.size());
+    g_planbuf->len = (uint32_t)txt.size();
   }
   int st = 0;
-  while (waitpid(pid, &st, 0) < 0 && errno == EINTR) {}
+  {
+    char c = 'r';
+    if (write(g_req_fd, &c, 1) != 1) { fprintf(stderr, "xrlsim: template process is gone\n"); exit(2); }
+    size_t got = 0;
+    while (got < sizeof st) {
+      ssize_t r = read(g_resp_fd, (char*)&st + got, sizeof st - got);
+      if (r <= 0) { if (r < 0 && errno == EINTR) continue; fprintf(stderr, "xrlsim: template process is gone\n"); exit(2); }
+      got += (size_t)r;
+    }
+  }
   out.log_hash = SH->log_hash;
   out.events = SH->events;
   out.stopped = SH->stopped_op >= 0;
@@ -307,7 +380,15 @@ static void run_threads(const Plan& p) {
   op_end();
 }
 
+// Undefined reads of dead stack slots must not depend on what the zygote happened to call before the fork:
+// give every child the same stack contents below its current frame.
+__attribute__((noinline, no_sanitize("address"))) static void scrub_stack() {
+  volatile char pad[192 * 1024];
+  for (size_t i = 0; i < sizeof pad; i += 1) pad[i] = (char)0xa5;
+}
+
 static void child_run(const Plan& p) {
+  scrub_stack();
   run_reset_child();
   if (!apply_locale(p.locale)) { fprintf(stderr, "xrlsim: locale configuration %d unavailable\n", p.locale); _exit(3); }
   logf("PLAN engine=%s batch=%s seed=%llu runseed=%llu locale=%s", p.engine.c_str(), p.batch.c_str(), (unsigned long long)p.seed,
@@ -902,6 +983,20 @@ static void usage() {
 }
 
 int main(int argc, char** argv) {
+  // shared state and the template process come first, before anything that depends on the command line
+  SH = (Shared*)mmap(nullptr, sizeof(Shared), PROT_READ | PROT_WRITE, MAP_SHARED | MAP_ANONYMOUS, -1, 0);
+  SR = (SchedRecord*)mmap(nullptr, sizeof(SchedRecord), PROT_READ | PROT_WRITE, MAP_SHARED | MAP_ANONYMOUS, -1, 0);
+  g_cov = (uint8_t*)mmap(nullptr, g_cov_n + 16, PROT_READ | PROT_WRITE, MAP_SHARED | MAP_ANONYMOUS, -1, 0);
+  g_planbuf = (PlanBuf*)mmap(nullptr, sizeof(PlanBuf), PROT_READ | PROT_WRITE, MAP_SHARED | MAP_ANONYMOUS, -1, 0);
+  if (SH == MAP_FAILED || SR == MAP_FAILED || g_cov == MAP_FAILED || g_planbuf == MAP_FAILED) { perror("mmap"); return 2; }
+  g_fd_out = memfd_create("xrlsim-stdout", 0);
+  g_fd_err = memfd_create("xrlsim-stderr", 0);
+  if (g_fd_out < 0 || g_fd_err < 0) { perror("memfd_create"); return 2; }
+  {
+    const char* bdir = ".";
+    for (int i = 1; i + 1 < argc; i++) if (!strcmp(argv[i], "--bdir")) bdir = argv[i + 1];
+    if (!spawn_template(bdir)) { perror("template"); return 2; }
+  }
   for (int i = 1; i < argc; i++) {
     std::string a = argv[i];
     auto next = [&]() -> std::string { if (i + 1 >= argc) usage(); return argv[++i]; };
@@ -931,15 +1026,6 @@ int main(int argc, char** argv) {
   setenv("LOCPATH", (O.bdir + "/../locale").c_str(), 1);
   symbols_load((O.bdir + "/exe.sym").c_str(), O.bdir.c_str());
   load_builtin_crystals((O.bdir + "/Crystals.dat").c_str());
-  SH = (Shared*)mmap(nullptr, sizeof(Shared), PROT_READ | PROT_WRITE, MAP_SHARED | MAP_ANONYMOUS, -1, 0);
-  SR = (SchedRecord*)mmap(nullptr, sizeof(SchedRecord), PROT_READ | PROT_WRITE, MAP_SHARED | MAP_ANONYMOUS, -1, 0);
-  g_cov = (uint8_t*)mmap(nullptr, g_cov_n + 16, PROT_READ | PROT_WRITE, MAP_SHARED | MAP_ANONYMOUS, -1, 0);
-  if (SH == MAP_FAILED || SR == MAP_FAILED || g_cov == MAP_FAILED) { perror("mmap"); return 2; }
-  g_fd_out = memfd_create("xrlsim-stdout", 0);
-  g_fd_err = memfd_create("xrlsim-stderr", 0);
-  if (g_fd_out < 0 || g_fd_err < 0) { perror("memfd_create"); return 2; }
-  g_tab_hash0 = tables_hash();
-  g_tab_ranges0 = tables_range_hashes();
   signal(SIGPIPE, SIG_IGN);
 
   if (!O.replay.empty()) {
